@@ -21,6 +21,7 @@ import (
 	"fmt"
 	"math/rand"
 	"reflect"
+	"regexp"
 	"sort"
 	"strings"
 
@@ -68,6 +69,15 @@ func (o c06Op) lean() []interface{} {
 		return []interface{}{"skip"}
 	case "session", "debug", "newdb", "ctx", "begin", "retstar", "distinct", "unscoped", "model", "onconflict":
 		return []interface{}{o.Name, o.Src}
+	case "set", "iset", "mapcol", "errop":
+		// chain calls whose effect is not part of the rendered SQL (Settings, ColumnMapping, DB.Error): for the
+		// model they are getInstance + an unrendered field; their effect is judged by the e2e oracle (c06Out.Extra)
+		return []interface{}{"unscoped", o.Src}
+	case "render":
+		if o.A >= 4 {
+			return []interface{}{"render", o.Src, 0} // failing finisher: no SQL on the real code, the tie skips it
+		}
+		return []interface{}{o.Name, o.Src, o.A}
 	default: // order group having havingg limit offset joins scopes table lock preload render
 		return []interface{}{o.Name, o.Src, o.A}
 	}
@@ -115,7 +125,11 @@ func (o c06Op) String() string {
 	case "orderc":
 		return fmt.Sprintf("h%d.Clauses(OrderBy{slice%d[:%d]})", o.Src, o.Sl, o.K)
 	case "render":
-		return fmt.Sprintf("h%d.%s()", o.Src, []string{"Find", "First", "Count", "Delete"}[o.A])
+		return fmt.Sprintf("h%d.%s()", o.Src, []string{"Find", "First", "Count", "Delete", "Find(&int)"}[o.A])
+	case "errop":
+		return fmt.Sprintf("h%d.%s", o.Src, []string{"Select(42)", "Select([]string{s1}, 42)", "Where((*int)(nil))", "Having((*int)(nil))", "Not((*int)(nil))", "Or((*int)(nil))"}[o.A])
+	case "set", "iset":
+		return fmt.Sprintf("h%d.%s(k%d, %d)", o.Src, o.Name, o.A, o.K)
 	case "skip":
 		return "-"
 	}
@@ -151,7 +165,61 @@ func (h c06Hist) mask(k int) []bool {
 type c06Out struct {
 	SQL  string   `json:"sql"`
 	Vars []string `json:"vars"`
-	Err  string   `json:"err,omitempty"`
+	// Extra: what else of the finished chain decides its results — the error it carries, what it would preload,
+	// its Settings (Set / InstanceSet), Unscoped, ColumnMapping, the clauses it holds.  Compared by the e2e oracle
+	// only (the model does not speak about it).
+	Extra string `json:"x,omitempty"`
+}
+
+var c06HexRe = regexp.MustCompile(`0x[0-9a-f]+`)
+
+func c06Extra(t *gorm.DB) string {
+	var parts []string
+	if t.Error != nil {
+		e := c06HexRe.ReplaceAllString(t.Error.Error(), "PTR")
+		if len(e) > 60 {
+			e = e[:60]
+		}
+		parts = append(parts, "err="+e)
+	}
+	st := t.Statement
+	if len(st.Preloads) > 0 {
+		var ks []string
+		for k, v := range st.Preloads {
+			ks = append(ks, fmt.Sprintf("%s%v", k, v))
+		}
+		sort.Strings(ks)
+		parts = append(parts, "preloads="+strings.Join(ks, ","))
+	}
+	var set []string
+	for k := 1; k <= 3; k++ {
+		if v, ok := t.Get(fmt.Sprint("c06:k", k)); ok {
+			set = append(set, fmt.Sprintf("k%d=%v", k, v))
+		}
+		if v, ok := t.InstanceGet(fmt.Sprint("c06:i", k)); ok {
+			set = append(set, fmt.Sprintf("i%d=%v", k, v))
+		}
+	}
+	if len(set) > 0 {
+		parts = append(parts, "settings="+strings.Join(set, ","))
+	}
+	if st.Unscoped {
+		parts = append(parts, "unscoped")
+	}
+	if len(st.ColumnMapping) > 0 {
+		parts = append(parts, fmt.Sprintf("colmap=%v", st.ColumnMapping))
+	}
+	var cl []string
+	for k, c := range st.Clauses {
+		if c.Expression != nil || k == "ON CONFLICT" {
+			cl = append(cl, k)
+		}
+	}
+	sort.Strings(cl)
+	if t.Error == nil { // a failed finisher stops at an arbitrary point of the build
+		parts = append(parts, "clauses="+strings.Join(cl, ","))
+	}
+	return strings.Join(parts, ";")
 }
 
 var c06OmitFields = []string{"", "name", "age", "email", "z"}
@@ -294,6 +362,29 @@ func c06Exec(h c06Hist, mask []bool) map[int]c06Out {
 			t = s.Clauses(clause.OnConflict{DoNothing: true})
 		case "lock":
 			t = s.Clauses(clause.Locking{Strength: []string{"", "UPDATE", "SHARE"}[o.A]})
+		case "set":
+			t = s.Set(fmt.Sprint("c06:k", o.A), o.K)
+		case "iset":
+			t = s.InstanceSet(fmt.Sprint("c06:i", o.A), o.K)
+		case "mapcol":
+			t = s.MapColumns(map[string]string{"name": fmt.Sprint("m", o.A)})
+		case "errop":
+			// chain calls that record an error — on the NEW instance, never on the receiver
+			var np *int
+			switch o.A {
+			case 0:
+				t = s.Select(42)
+			case 1:
+				t = s.Select([]string{"s1"}, 42)
+			case 2:
+				t = s.Where(np)
+			case 3:
+				t = s.Having(np)
+			case 4:
+				t = s.Not(np)
+			default:
+				t = s.Or(np)
+			}
 		case "render":
 			switch o.A {
 			case 0:
@@ -305,10 +396,13 @@ func c06Exec(h c06Hist, mask []bool) map[int]c06Out {
 			case 2:
 				var n int64
 				t = s.Model(&VUser{}).Count(&n)
-			default:
+			case 3:
 				t = s.Delete(&VUser{})
+			default:
+				var n int
+				t = s.Find(&n) // fails: no model, no table (error on the finisher's own instance)
 			}
-			out := c06Out{SQL: t.Statement.SQL.String(), Vars: normArgs(t.Statement.Vars)}
+			out := c06Out{SQL: t.Statement.SQL.String(), Vars: normArgs(t.Statement.Vars), Extra: c06Extra(t)}
 			outs[i] = out
 		default:
 			panic("c06: unknown op " + o.Name)
@@ -508,6 +602,7 @@ type c06Gen struct {
 	where    [][]int // per handle: kinds of the elements of its WHERE list (0 plain/And, 1 single Or, 2 Not)
 	retN     []int   // per handle: number of Returning merges with columns on its path (-1 = RETURNING *)
 	scoped   []bool // per handle: has pending Scopes
+	ptrAlias []bool // per handle: shares its *Statement with another reusable handle (Session / Session{NewDB} of or from a reusable handle)
 	inTx     []bool // per handle: descends from Begin (a nested Begin is an error, not a chain)
 	nextAtom int
 	clean    bool // avoid the shapes of the listed findings
@@ -530,6 +625,12 @@ func (g *c06Gen) add(o c06Op, clone int, where []int, retN int) int {
 		sc = true
 	}
 	g.scoped = append(g.scoped, sc)
+	al := false
+	if (o.Name == "session" || o.Name == "newdb") && o.Src < len(g.clone)-1 && g.clone[o.Src] > 0 {
+		al = true // Session without Context shares the statement pointer with its (reusable) source
+		g.ptrAlias[o.Src] = true
+	}
+	g.ptrAlias = append(g.ptrAlias, al)
 	g.inTx = append(g.inTx, o.Name == "begin" || (o.Src < len(g.inTx) && g.inTx[o.Src]))
 	return len(g.clone) - 1
 }
@@ -618,7 +719,7 @@ func (g *c06Gen) step() {
 		g.add(c06Op{Name: name, Src: s}, cl, w, rn)
 	case k < 30: // render
 		s := g.pick(r.Intn(2) == 0)
-		fin := []int{0, 0, 1, 2, 3, 3}[r.Intn(6)]
+		fin := []int{0, 0, 1, 2, 3, 3, 0, 0, 1, 2, 3, 4}[r.Intn(12)]
 		w, rn := g.base(s)
 		g.add(c06Op{Name: "render", Src: s, A: fin}, 0, w, rn)
 		g.used[len(g.used)-1] = true
@@ -639,6 +740,13 @@ func (g *c06Gen) step() {
 		if r.Intn(5) == 0 {
 			name = "havingg"
 			g.add(c06Op{Name: name, Src: s, A: arg}, 0, w, rn)
+			return
+		}
+		if g.scoped[arg] {
+			// pending scopes: whether the group gets a condition depends on the tree (F24); the WHERE kinds are
+			// only generator bookkeeping for the listed shapes, the argument is marked and never reused as one
+			g.scoped[arg] = false
+			g.add(c06Op{Name: name, Src: s, K: kind, A: arg}, 0, append(w, kind), rn)
 			return
 		}
 		if len(g.where[arg]) == 0 && g.clone[arg] != 1 {
@@ -678,7 +786,17 @@ func (g *c06Gen) step() {
 		s := g.pick(false)
 		w, rn := g.base(s)
 		var o c06Op
-		switch r.Intn(17) {
+		switch r.Intn(22) {
+		case 17:
+			o = c06Op{Name: "preload", Src: s, A: 1 + r.Intn(3)}
+		case 18:
+			o = c06Op{Name: []string{"set", "iset"}[r.Intn(2)], Src: s, A: 1 + r.Intn(3), K: 1 + r.Intn(5)}
+		case 19:
+			o = c06Op{Name: "mapcol", Src: s, A: 1 + r.Intn(3)}
+		case 20:
+			o = c06Op{Name: "errop", Src: s, A: r.Intn(6)}
+		case 21:
+			o = c06Op{Name: []string{"unscoped", "model", "onconflict", "distinct"}[r.Intn(4)], Src: s, A: 1}
 		case 0, 1:
 			o = c06Op{Name: "order", Src: s, A: g.atom()}
 		case 2:
@@ -765,8 +883,14 @@ func (g *c06Gen) pickArg() int {
 		if g.clone[i] == 0 && g.used[i] {
 			continue
 		}
-		if i == 0 || g.scoped[i] {
-			continue // BuildCondition runs executeScopes on the argument: out of the modelled fragment (see report)
+		if i == 0 {
+			continue
+		}
+		if g.scoped[i] && (g.clean || (g.clone[i] > 0 && g.ptrAlias[i])) {
+			// BuildCondition runs executeScopes on the argument (F24): avoided in clean mode; the model keeps
+			// statements by value, so a reusable argument whose *Statement is shared with another reusable
+			// handle (scopes = nil hits both) is outside what the tie can follow
+			continue
 		}
 		w := g.where[i]
 		if g.clone[i] == 1 {
@@ -788,17 +912,23 @@ func (g *c06Gen) pickArg() int {
 }
 
 func c06Generate(rng *rand.Rand, maxOps int, clean bool) c06Hist {
-	g := &c06Gen{rng: rng, clean: clean, clone: []int{1}, used: []bool{false}, where: [][]int{nil}, retN: []int{0}, scoped: []bool{false}, inTx: []bool{false}}
+	g := &c06Gen{rng: rng, clean: clean, clone: []int{1}, used: []bool{false}, where: [][]int{nil}, retN: []int{0}, scoped: []bool{false}, inTx: []bool{false}, ptrAlias: []bool{false}}
 	n := 3 + rng.Intn(maxOps-2)
 	// capacity-sensitive prefix: several merges of one clause kind on a shared ancestor
 	if rng.Intn(3) == 0 {
 		s := 0
-		reps := 2 + rng.Intn(3)
-		kind := rng.Intn(4)
-		if clean && kind == 0 {
-			kind = 1
-		}
+		// the shared ancestor already CARRIES state of one kind (repeated: spare capacity) or of several kinds
+		// (mixed) before the siblings are derived from it: every kind of builder state a chain method adds
+		reps := 2 + rng.Intn(4)
+		kind := rng.Intn(14)
+		mixed := rng.Intn(3) == 0
 		for i := 0; i < reps; i++ {
+			if mixed {
+				kind = rng.Intn(14)
+			}
+			if clean && kind == 0 {
+				kind = 1
+			}
 			w, rn := g.base(s)
 			switch kind {
 			case 0:
@@ -807,15 +937,39 @@ func c06Generate(rng *rand.Rand, maxOps int, clean bool) c06Hist {
 				s = g.add(c06Op{Name: "order", Src: s, A: g.atom()}, 0, w, rn)
 			case 2:
 				s = g.add(c06Op{Name: "joins", Src: s, A: g.atom()}, 0, w, rn)
-			default:
+			case 3:
 				s = g.add(c06Op{Name: "cond", Src: s, K: 0, A: g.atom()}, 0, append(w, 0), rn)
+			case 4:
+				s = g.add(c06Op{Name: "group", Src: s, A: g.atom()}, 0, w, rn)
+			case 5:
+				s = g.add(c06Op{Name: "having", Src: s, A: g.atom()}, 0, w, rn)
+			case 6:
+				s = g.add(c06Op{Name: "scopes", Src: s, A: g.atom()}, 0, w, rn)
+			case 7:
+				s = g.add(c06Op{Name: "preload", Src: s, A: 1 + rng.Intn(3)}, 0, w, rn)
+			case 8:
+				s = g.add(c06Op{Name: []string{"set", "iset"}[rng.Intn(2)], Src: s, A: 1 + rng.Intn(3), K: 1 + rng.Intn(5)}, 0, w, rn)
+			case 9:
+				s = g.add(c06Op{Name: "select", Src: s, L: []int{g.atom(), g.atom(), g.atom()}}, 0, w, rn)
+			case 10:
+				s = g.add(c06Op{Name: "omit", Src: s, L: []int{1 + rng.Intn(4)}}, 0, w, rn)
+			case 11:
+				s = g.add(c06Op{Name: "cond", Src: s, K: 2, A: g.atom()}, 0, append(w, 2), rn)
+			case 12:
+				s = g.add(c06Op{Name: []string{"limit", "offset", "table", "lock", "mapcol"}[rng.Intn(5)], Src: s, A: 1 + rng.Intn(2)}, 0, w, rn)
+			default:
+				if i == reps-1 && rng.Intn(4) == 0 {
+					s = g.add(c06Op{Name: "errop", Src: s, A: rng.Intn(6)}, 0, w, rn) // a handle that already carries an error
+				} else {
+					s = g.add(c06Op{Name: "order", Src: s, A: g.atom()}, 0, w, rn)
+				}
 			}
 			if i > 0 {
 				g.used[s-1] = true
 			}
 		}
 		g.used[s] = true
-		g.add(c06Op{Name: "session", Src: s}, 2, append([]int(nil), g.where[s]...), g.retN[s])
+		g.add(c06Op{Name: []string{"session", "session", "ctx", "debug"}[rng.Intn(4)], Src: s}, 2, append([]int(nil), g.where[s]...), g.retN[s])
 	}
 	for len(g.h.Ops) < n {
 		g.step()
@@ -842,10 +996,11 @@ type c06Shape struct {
 	where    [][]int
 	ret      []int
 	reusable []bool
+	scoped   []bool // pending Scopes on the handle's statement (static approximation)
 }
 
 func c06Shapes(h c06Hist) c06Shape {
-	sh := c06Shape{where: [][]int{nil}, ret: []int{0}, reusable: []bool{true}}
+	sh := c06Shape{where: [][]int{nil}, ret: []int{0}, reusable: []bool{true}, scoped: []bool{false}}
 	clone := []int{1}
 	for _, o := range h.Ops {
 		s := o.Src
@@ -892,10 +1047,21 @@ func c06Shapes(h c06Hist) c06Shape {
 		case "retstar":
 			rn = -1
 		}
+		sc := false
+		if s < len(clone) && o.Name != "skip" && o.Name != "render" {
+			// a chain call on a clone-1 handle starts from an empty statement; derivations keep it
+			if clone[s] != 1 || cl > 0 {
+				sc = sh.scoped[s]
+			}
+		}
+		if o.Name == "scopes" {
+			sc = true
+		}
 		clone = append(clone, cl)
 		sh.where = append(sh.where, w)
 		sh.ret = append(sh.ret, rn)
 		sh.reusable = append(sh.reusable, cl > 0)
+		sh.scoped = append(sh.scoped, sc)
 	}
 	return sh
 }
@@ -936,11 +1102,14 @@ func c06Patterns(h c06Hist) map[string]bool {
 				p["F4-C06-returning-append-alias"] = true
 			}
 		case "selects":
-			if len(o.L) > 0 && o.Sl < len(h.Slices) && o.K+len(o.L) <= h.Slices[o.Sl].Cap {
+			if len(o.L) > 0 && o.Sl < len(h.Slices) && o.K < h.Slices[o.Sl].Cap {
 				p["F22-C06-select-appends-caller-slice"] = true
 			}
 		case "condg", "havingg":
 			if o.A < len(sh.where) {
+				if sh.scoped[o.A] && sh.reusable[o.A] {
+					p["F24-C06-group-arg-loses-scopes"] = true
+				}
 				w := sh.where[o.A]
 				if len(w) == 1 && w[0] == 1 {
 					p["F5-C06-group-arg-rewritten"] = true
@@ -954,29 +1123,50 @@ func c06Patterns(h c06Hist) map[string]bool {
 	return p
 }
 
-// which part of the statement differs
-func c06Region(a, b string) string {
-	cut := func(s, kw string) (string, string) {
-		if i := strings.Index(s, kw); i >= 0 {
-			return s[:i], s[i:]
+// which part of the statement differs: the statement is cut at its top-level keywords (the generated
+// conditions, columns and joins never contain them) and compared segment by segment
+func c06Segments(q string) map[string]string {
+	seg := map[string]string{}
+	cur := "head"
+	kws := []struct{ kw, name string }{{" WHERE ", "where"}, {" GROUP BY ", "group"}, {" HAVING ", "where2"}, {" ORDER BY ", "order"},
+		{" LIMIT ", "limit"}, {" RETURNING ", "returning"}}
+	for len(q) > 0 {
+		best, bi := -1, -1
+		for i, k := range kws {
+			if j := strings.Index(q, k.kw); j >= 0 && (best < 0 || j < best) {
+				best, bi = j, i
+			}
 		}
-		return s, ""
+		if best < 0 {
+			seg[cur] += q
+			break
+		}
+		seg[cur] += q[:best]
+		cur = kws[bi].name
+		q = q[best+len(kws[bi].kw):]
+		if seg[cur] == "" {
+			seg[cur] = " "
+		}
 	}
-	ah, ar := cut(a, " RETURNING ")
-	bh, br := cut(b, " RETURNING ")
-	if ah == bh && ar != br {
-		return "returning"
+	return seg
+}
+
+func c06Region(a, b string) string {
+	if a == b {
+		return "extra" // same SQL: error / preloads / settings / clauses differ
 	}
-	aw0, aw := cut(ah, " WHERE ")
-	bw0, bw := cut(bh, " WHERE ")
-	if aw != bw && aw0 == bw0 {
-		return "where"
+	sa, sb := c06Segments(a), c06Segments(b)
+	diff := map[string]bool{}
+	for _, k := range []string{"head", "where", "group", "where2", "order", "limit", "returning"} {
+		if strings.TrimSpace(sa[k]) != strings.TrimSpace(sb[k]) {
+			diff[map[string]string{"head": "select", "where": "where", "where2": "where", "returning": "returning"}[k]] = true
+		}
 	}
-	if aw == bw && aw0 != bw0 {
-		as, _ := cut(aw0, " FROM ")
-		bs, _ := cut(bw0, " FROM ")
-		if as != bs {
-			return "select"
+	if len(diff) == 1 {
+		for k := range diff {
+			if k != "" {
+				return k
+			}
 		}
 	}
 	return "other"
@@ -987,6 +1177,24 @@ var c06RegionOf = map[string]string{
 	"F22-C06-select-appends-caller-slice": "select",
 	"F5-C06-group-arg-rewritten":          "where",
 	"F23-C06-where-build-swap":            "where",
+	"F24-C06-group-arg-loses-scopes":      "where",
+}
+
+// c06Live: the listed findings whose witness still reproduces on THIS tree (set once per run / replay).  A
+// mismatch is attributed to a listed finding only while that finding is live: on a tree that carries the
+// repair, the same shape differing is a violation again.
+var c06Live map[string]bool
+
+func c06LiveFindings() map[string]bool {
+	if c06Live == nil {
+		c06Live = map[string]bool{}
+		for id, h := range c06Witnesses() {
+			if _, _, bad := c06Judge(h); len(bad) > 0 && c06Patterns(h)[id] && bad[0].Region == c06RegionOf[id] {
+				c06Live[id] = true
+			}
+		}
+	}
+	return c06Live
 }
 
 type c06Mismatch struct {
@@ -998,6 +1206,11 @@ type c06Mismatch struct {
 }
 
 func c06SameOut(a, b c06Out) bool {
+	return a.SQL == b.SQL && reflect.DeepEqual(a.Vars, b.Vars) && a.Extra == b.Extra
+}
+
+// the tie compares what the model speaks about: SQL text and Vars
+func c06SameSQL(a, b c06Out) bool {
 	return a.SQL == b.SQL && reflect.DeepEqual(a.Vars, b.Vars)
 }
 
@@ -1066,7 +1279,7 @@ func c06Report(r *Result, suite string, h c06Hist, bad []c06Mismatch) {
 		}
 		sort.Strings(ids)
 		for _, p := range ids {
-			if c06RegionOf[p] == m.Region && listed(p) {
+			if c06RegionOf[p] == m.Region && listed(p) && c06LiveFindings()[p] {
 				id = p
 				break
 			}
@@ -1099,6 +1312,10 @@ func c06Witnesses() map[string]c06Hist {
 		"F22-C06-select-appends-caller-slice": {Slices: []c06Slice{{Atoms: []int{1, 2}, Cap: 4}}, Ops: []c06Op{
 			{Name: "selects", Src: 0, Sl: 0, K: 2, L: []int{3}}, {Name: "selects", Src: 0, Sl: 0, K: 2, L: []int{4}},
 			{Name: "render", Src: 1, A: 0}, {Name: "render", Src: 2, A: 0}}},
+		"F24-C06-group-arg-loses-scopes": {Ops: []c06Op{
+			{Name: "scopes", Src: 0, A: 1}, {Name: "session", Src: 1}, {Name: "render", Src: 2, A: 0},
+			{Name: "cond", Src: 0, K: 0, A: 2}, {Name: "condg", Src: 4, K: 0, A: 2}, {Name: "render", Src: 5, A: 0},
+			{Name: "render", Src: 2, A: 0}}},
 	}
 }
 
@@ -1162,13 +1379,17 @@ func c06Tie(r *Result, cases []c06TieCase) {
 					r.H("model_tokens", t)
 				}
 			}
-			if !c06SameOut(c.full[idx], wantIn) {
+			if al := c.alone[idx]; (al.SQL == "" && strings.Contains(al.Extra, "err=")) || c.h.Ops[idx].A >= 4 {
+				r.H("tie_skipped", "chain carries an error (no SQL) / Find(&int)")
+				continue
+			}
+			if !c06SameSQL(c.full[idx], wantIn) {
 				r.CorrDiffs++
 				r.Violate(Violation{Kind: "correspondence", Suite: "tie", Input: c.h, Observed: c.full[idx], Expected: wantIn,
 					Note: fmt.Sprintf("render op %d inside the history: real code vs model; %s", idx, strings.Join(c.h.Desc(), "; "))})
 				break
 			}
-			if !c06SameOut(c.alone[idx], wantAl) {
+			if !c06SameSQL(c.alone[idx], wantAl) {
 				r.CorrDiffs++
 				r.Violate(Violation{Kind: "correspondence", Suite: "tie", Input: c.h, Observed: c.alone[idx], Expected: wantAl,
 					Note: fmt.Sprintf("render op %d replayed alone: real code vs model; %s", idx, strings.Join(c.h.Desc(), "; "))})
@@ -1178,7 +1399,41 @@ func c06Tie(r *Result, cases []c06TieCase) {
 	}
 }
 
+// c06Linear: the hypothesis `Linear` of the Lean theorems (Lemmas/HeapQuiet.lean) — handle 0 and results of
+// derivations may be used any number of times, every other handle at most once; no forward references.
+func c06Linear(h c06Hist) bool {
+	uses := map[int]int{}
+	for j, o := range h.Ops {
+		if o.Name == "skip" {
+			continue
+		}
+		for _, u := range append([]int{o.Src}, o.args()...) {
+			if u > j {
+				return false
+			}
+			uses[u]++
+		}
+	}
+	for i, n := range uses {
+		if i == 0 || n <= 1 {
+			continue
+		}
+		switch h.Ops[i-1].Name {
+		case "session", "debug", "newdb", "ctx", "begin":
+		default:
+			return false
+		}
+	}
+	return true
+}
+
 func c06Stats(r *Result, h c06Hist, full map[int]c06Out) (nontrivial bool) {
+	if c06Linear(h) {
+		r.H("history_is_Linear (hypothesis of C06_noninterference)", "yes")
+	} else {
+		r.H("history_is_Linear (hypothesis of C06_noninterference)", "NO")
+		r.Violate(Violation{Kind: "correspondence", Suite: "tie", Input: h, Observed: "generated history is not Linear", Expected: "the generator obeys the property's quantifier (a chain instance is used at most once more)"})
+	}
 	r.H("ops", fmt.Sprint(len(h.Ops)/5*5, "+"))
 	users := map[int]int{}
 	renders := 0
@@ -1187,7 +1442,7 @@ func c06Stats(r *Result, h c06Hist, full map[int]c06Out) (nontrivial bool) {
 		users[o.Src]++
 		if o.Name == "render" {
 			renders++
-			r.H("finisher", []string{"Find", "First", "Count", "Delete"}[o.A])
+			r.H("finisher", []string{"Find", "First", "Count", "Delete", "Find(&int) failing"}[o.A])
 		}
 		if o.Name == "cond" || o.Name == "condg" {
 			r.H("cond_kind", []string{"Where", "Or", "Not"}[o.K])
